@@ -14,17 +14,44 @@ def env_words(env):
     hx = lambda s: s.encode().hex() or '-'
     return ' '.join([str(env['amount']), str(env['balance']), str(env['now']), str(env['level']),
                      hx(env['sender']), hx(env['source']), hx(env['self']), hx(env['chain_id']),
-                     str(env.get('total_voting_power', 0)), str(env.get('min_block_time', 1))])
+                     str(env.get('total_voting_power', 0)), str(env.get('min_block_time', 1)),
+                     ','.join(f'{hx(k)}:{v}' for k, v in sorted(env.get('voting_power', {}).items())) or '-'])
 
 
 def gen_env(rng):
-    return {'amount': rng.choice([0, 1, 10**6, 2**62]), 'balance': rng.choice([0, 5, 10**9]), 'now': rng.choice([0, 1, 1700000000, -5]),
+    pname, ptype, eps = rng.choice(gen_interp.PARAMETERS)
+    return {'parameter': ptype, 'entrypoints': eps, 'parameter_name': pname,
+            'amount': rng.choice([0, 1, 10**6, 2**62]), 'balance': rng.choice([0, 5, 10**9]), 'now': rng.choice([0, 1, 1700000000, -5]),
             'level': rng.choice([1, 2, 10**7]), 'sender': rng.choice(gen_interp.ADDRS), 'source': rng.choice(gen_interp.ADDRS[:1] + gen_interp.ADDRS[2:4]),
             'self': rng.choice(gen_interp.ADDRS[1:2] + gen_interp.ADDRS[4:]), 'chain_id': rng.choice(gen_interp.CHAINS),
-            'total_voting_power': rng.choice([0, 1, 500, 10**12]), 'min_block_time': rng.choice([1, 8, 15, 30])}
+            'total_voting_power': rng.choice([0, 1, 500, 10**12]), 'min_block_time': rng.choice([1, 8, 15, 30]),
+            # the delegates with a voting power (the others have 0): some of the hashes HASH_KEY produces, some pushed literally
+            'voting_power': {k: rng.choice([0, 1, 4000, 2**63, 10**30]) for k in gen_interp.KEY_HASHES if rng.random() < 0.5}}
 
 
 ERR_KINDS = ('err', 'stuck', 'oof', 'rtfail', 'offguard')
+
+
+def for_model(code, env):
+    """the program as the Lean driver reads it: `SELF %ep` is written with the type of that entrypoint of the running contract's
+    parameter as an argument (the elaborated instruction — the real side looks it up in `context.parameter_expr`)"""
+    eps = env.get('entrypoints', {})
+
+    def walk(x):
+        if isinstance(x, list):
+            return [walk(y) for y in x]
+        if isinstance(x, dict) and 'prim' in x:
+            if x['prim'] == 'SELF':
+                ep = (x.get('annots') or ['%default'])[0][1:]
+                return {**x, 'args': [gen_interp.ty_mich(eps[ep])]}
+            if 'args' in x:
+                return {**x, 'args': [walk(a) for a in x['args']]}
+        return x
+    return walk(code)
+
+
+def prog_line(code, env):
+    return f'{FUEL} | {env_words(env)} | {mich.to_line(for_model(code, env))}'
 
 
 def parse_model(out):
@@ -62,7 +89,21 @@ def binarize(m):
 
 
 def norm_val(v):
-    return mich.normalize(binarize(v))
+    return mich.normalize(strip_default_ep(binarize(v)))
+
+
+def strip_default_ep(m):
+    """inside code rendered back (lambda values): `CONTRACT %default t` and `CONTRACT t` are the same instruction"""
+    if isinstance(m, list):
+        return [strip_default_ep(x) for x in m]
+    if isinstance(m, dict) and 'prim' in m:
+        out = dict(m)
+        if 'args' in out:
+            out['args'] = [strip_default_ep(a) for a in out['args']]
+        if out['prim'] == 'CONTRACT' and out.get('annots') == ['%default']:
+            del out['annots']
+        return out
+    return m
 
 
 def defined(spec_m):
@@ -126,13 +167,15 @@ def run(ctx, prop=PROP):
     if prop == 'C02':
         progs += collection_programs(g, ctx.rng, 1 if ctx.tier == 'quick' else 8)
     for i in range(n_prog):
+        env = gen_env(ctx.rng)
+        g.entrypoints = env['entrypoints']      # SELF %ep is typed by the parameter of the running contract
         code, st = g.program(ctx.rng.choice([3, 5, 8, 12, 16]))
-        progs.append((code, st, gen_env(ctx.rng)))
+        progs.append((code, st, env))
     progs += edge_programs(g, ctx.rng, ctx.tier)
     progs += boundary_programs(ctx.rng)
     lines = []
     for code, st, env in progs:
-        line = f'{FUEL} | {env_words(env)} | {mich.to_line(code)}'
+        line = prog_line(code, env)
         lines.append('impl ' + line)
         lines.append('spec ' + line)
         lines.append('specg ' + line)
@@ -209,7 +252,10 @@ def run(ctx, prop=PROP):
             if d:
                 ctx.mismatch('impl-mirror', {'code': code, 'env': env}, f'{d}: {str(real)[:300]}', str(impl_m)[:300])
             if real[0] == 'failed' and impl_m[0] == 'failed':
-                want_repr = interp_run.py_repr(*impl_m[1])
+                try:
+                    want_repr = interp_run.py_repr(*impl_m[1])
+                except interp_run.NoRepr:
+                    want_repr = None
                 if want_repr is not None and want_repr != real[1]:
                     ctx.mismatch('failwith-value', {'code': code, 'env': env}, real[1], want_repr)
             # ---- C02's property verbatim: runtime type of every final slot = the type the typing rules assign
@@ -258,7 +304,7 @@ def run(ctx, prop=PROP):
                       {'code': code, 'minimal': small, 'env': env, 'real': str(real), 'reference': str(spec_m)})
 
 
-HASHES = ['blake2b', 'sha256', 'sha512', 'keccak', 'sha3']
+HASHES = ['blake2b', 'sha256', 'sha512', 'keccak', 'sha3']      # + 'hashkey': HASH_KEY's function on the keys the generator uses
 
 
 def real_hash(algo, msg):
@@ -270,6 +316,9 @@ def real_hash(algo, msg):
         return blake2b_32(msg).digest()
     if algo == 'keccak':
         return Keccak256(msg).digest()
+    if algo == 'hashkey':      # what HashKeyInstruction computes: text of the key -> text of its hash
+        from pytezos.crypto.key import Key
+        return Key.from_encoded_key(msg.decode()).public_key_hash().encode()
     return {'sha256': hashlib.sha256, 'sha512': hashlib.sha512, 'sha3': hashlib.sha3_256}[algo](msg).digest()
 
 
@@ -284,6 +333,7 @@ def hash_stream(rng, tier):
         msg = rng.bytes_(n) if kind else bytes([rng.choice([0, 0xff, 0x80])] * n)
         for algo in HASHES:
             cases.append((algo, msg))
+    cases += [('hashkey', k.encode()) for k in gen_interp.KEYS]
     return cases
 
 
@@ -304,7 +354,7 @@ def show_code(code):
 
 def deviates(ctx, prop, code, env):
     """(description, real, reference) if the real run of `code` deviates from a defined reference result, else None"""
-    line = f'{FUEL} | {env_words(env)} | {mich.to_line(code)}'
+    line = prog_line(code, env)
     out = ctx.model(['spec ' + line], driver=prop)
     if out is None:
         return None
